@@ -225,6 +225,31 @@ def _run(xs, ys, k, mask):
             LAST_DIFF = ('algebra result', rl, list(eset)); return False
         if [(e in r) for e in EL] != [(e in eset) for e in EL]:
             LAST_DIFF = ('algebra membership', rl, list(eset)); return False
+        # the result is a set of its own: changing it afterwards must not change an operand, and changing the left
+        # operand must not change the result (a result that IS an operand - e.g. a shortcut for an empty operand - would
+        # make a set hold elements that were never added to it)
+        if hasattr(r, 'add') and hasattr(r, 'discard'):
+            s_before = list(s)
+            fresh = [e for e in EL if e not in eset]
+            if fresh:
+                r.add(fresh[0])
+            if rl:
+                r.discard(rl[0])
+            if list(s) != s_before:
+                LAST_DIFF = ('changing the result of a non-in-place operation changed the left operand', s_before, list(s)); return False
+            if OTYPE in ('OrderedSet', 'QuerySet', 'list') and list(other) != ys:
+                LAST_DIFF = ('changing the result of a non-in-place operation changed the right operand', ys, list(other)); return False
+            r_before = list(r)
+            grow = [e for e in EL if e not in s]
+            if grow:
+                s.add(grow[0])
+            if len(s) > 0:
+                s.pop()
+            if len(s) > 0:
+                s.pop(last=False)
+            if list(r) != r_before:
+                LAST_DIFF = ('changing the left operand afterwards changed the result of a non-in-place operation', r_before, list(r)); return False
+            return True
     if binary and OTYPE not in ('self', 'generator') and OP != 'ctor':
         if list(other) != ys:
             LAST_DIFF = ('operand modified', list(other), ys); return False
